@@ -257,12 +257,12 @@ type Up struct {
 
 	Served     atomic.Int64
 	TCPClosed  atomic.Int64
-	TCPHandler func(c net.Conn) // optional override of the stamp+echo behaviour
-	Handler   func(u *Up, w http.ResponseWriter, r *http.Request, rec *Recorded) // optional override
-	mu        sync.Mutex
-	Seen      []*Recorded
-	AcceptErr atomic.Value // error returned by Accept on a listener nobody closed
-	serveDone chan struct{}
+	TCPHandler func(c net.Conn)                                                   // optional override of the stamp+echo behaviour
+	Handler    func(u *Up, w http.ResponseWriter, r *http.Request, rec *Recorded) // optional override
+	mu         sync.Mutex
+	Seen       []*Recorded
+	AcceptErr  atomic.Value // error returned by Accept on a listener nobody closed
+	serveDone  chan struct{}
 }
 
 func (u *Up) stampHandler() http.Handler {
